@@ -130,7 +130,7 @@ Value& MemberINSERTExpression::value(Context& ctx) const
         }
         else if (a1.type() == Type::NO_TYPE)
         {
-          rv->insert(rv->begin() + p, Value(Value::type_integer));
+          rv->insert(rv->begin() + p, Value(rv_type.levelDown()));
           return val;
         }
         break;
@@ -142,7 +142,7 @@ Value& MemberINSERTExpression::value(Context& ctx) const
         }
         else if (a1.type() == Type::NO_TYPE)
         {
-          rv->insert(rv->begin() + p, Value(Value::type_numeric));
+          rv->insert(rv->begin() + p, Value(rv_type.levelDown()));
           return val;
         }
         break;
